@@ -12,9 +12,9 @@ def jobs(tier):
         Job('desc_table', H, 'h_desc_table', defines=ND, unwind=8, no_standard_checks=True, object_bits=10),
         Job('insn_op_mode', H, 'h_insn_op_mode', defines=ND, unwind=8, no_standard_checks=True, object_bits=10),
         Job('wrong_type_p', H, 'h_wrong_type_p', enforce='wrong_type_p', defines=ND, unwind=8, object_bits=10),
-        Job('new_insn_arr.fixed', H, 'h_new_insn_fixed', defines=ND, unwind=200, no_standard_checks=True, object_bits=10,
+        Job('new_insn_arr.fixed', H, 'h_new_insn_fixed', defines=ND, unwind=8, no_standard_checks=True, object_bits=10,
             scope=['vp_on_error', 'vp_ctx_setup'], timeout=600),
-        Job('new_insn_arr.call', H, 'h_new_insn_call', defines=ND, unwind=200, no_standard_checks=True, object_bits=10,
+        Job('new_insn_arr.call', H, 'h_new_insn_call', defines=ND, unwind=8, no_standard_checks=True, object_bits=10,
             scope=['vp_on_error', 'vp_ctx_setup'], timeout=600),
     ]
     return J
